@@ -7,7 +7,7 @@
 (* once-each evaluation (a skipped, repeated or out-of-order evaluation is *)
 (* rejected).                                                              *)
 (***************************************************************************)
-EXTENDS Macros, TLC
+EXTENDS MacroDefs, TLC
 
 CONSTANTS MaxK
 
